@@ -256,7 +256,36 @@ def _depth_of(kind):
     return 2 if kind == 'hier2' else 3 if kind == 'hier3' else 1
 
 
+def _gen_stack_big_ints(rng):
+    """pivot_stack over product columns (group x target) where every group has one dtype: an int64 group holding ints beyond
+    2**53 beside a float64 group. No output column mixes dtypes and no fill is needed, so every cell must come back exactly — unless
+    a cell is routed through a row array of the frame's common (float) dtype on the way."""
+    groups = rng.sample(['g1', 'g2', 'g3'], rng.randint(2, 3))
+    targets = rng.sample(['t1', 't2', 't3'], rng.randint(1, 3))
+    gdt = {g: dt for g, dt in zip(groups, ['int64', 'float64'] + [rng.choice(['int64', 'uint8', 'float64'])])}
+    big = [2**53 + 1, 2**62 + 3, -(2**53) - 5, 1627776000123456789, 7]
+    nr = rng.randint(1, 3)
+    cols = [(g, t) for g in groups for t in targets]
+    dts = [gdt[g] for g, _ in cols]
+    columns = []
+    for dt in dts:
+        if dt == 'int64':
+            columns.append([rng.choice(big) for _ in range(nr)])
+        elif dt == 'uint8':
+            columns.append([rng.choice([0, 3, 255]) for _ in range(nr)])
+        else:
+            columns.append([rng.choice([0.5, -2.25, 3.0, 1e10]) for _ in range(nr)])
+    cells = [[columns[j][i] for j in range(len(cols))] for i in range(nr)]
+    rk = rng.choice(['auto', 'str'])
+    rows = list(range(nr)) if rk == 'auto' else ['a', 'b', 'c'][:nr]
+    spec = F.FrameSpec(rows, cols, rk, 'hier2', dts, cells, None)
+    return {'kind': 'stack', 'spec': spec, 'layout': _layout(rng, spec.dtypes), 'depth_level': rng.choice([-1, 1, [1]]),
+            'fill': 0, 'fill2': 0, 'default_fill': False, 'big_ints': True}
+
+
 def _gen_stack(rng):
+    if rng.random() < 0.12:
+        return _gen_stack_big_ints(rng)
     direct_unstack = rng.random() < 0.3
     if direct_unstack:
         rks, cks = ['hier2', 'hier3', 'hier2', 'str', 'int'], ['str', 'int', 'hier2', 'str']
@@ -387,6 +416,10 @@ def _join_side(rng, nr, key_dts, from_depth, n_payload, label_pool_kind, distinc
         rk = 'hier2'
         keyvals[0], keyvals[1] = [t[0] for t in rows], [t[1] for t in rows]
         depth_level = [0, 1]
+        if depth_keys[0] == depth_keys[1] and rng.random() < 0.4:
+            # the depths named in another order than they are stored: key field 0 is depth 1, key field 1 is depth 0
+            keyvals[0], keyvals[1] = keyvals[1], keyvals[0]
+            depth_level = rng.choice([[1, 0], [-1, 0]])
     pay_dts = [rng.choice(MILD_DTYPES) for _ in range(n_payload)]
     fields = [('key', k) for k in range(from_depth, n_key)] + [('pay', k) for k in range(n_payload)]
     rng.shuffle(fields)
